@@ -246,3 +246,50 @@ Qed.
 
 Theorem default_binary_roundtrip : forall e, binary_only e = true -> roundtrip false e.
 Proof. intros e H. apply default_binary_any_table. exact H. Qed.
+
+(* ---- the candidate repair (every non-atomic form parenthesised) round-trips every expression of the fragment, for every table *)
+Lemma paren_wf : forall T e, ops_pos T e = true -> wf T (to_ast_paren e) = true /\ closed (to_ast_paren e) = true.
+Proof.
+  intros T. induction e; intro H; cbn [ops_pos] in H; cbn [to_ast_paren].
+  - split; reflexivity.
+  - apply andb_prop in H. destruct H as [H H2]. apply andb_prop in H. destruct H as [Hp H1].
+    destruct (IHe1 H1) as [W1 C1]. destruct (IHe2 H2) as [W2 C2]. split; [|reflexivity].
+    cbn [wf lsp_gt]. rewrite W1, W2, Hp, (closed_opn T _ _ C1), (closed_lsp T _ _ C2), (closed_lsp T _ _ C1). reflexivity.
+  - apply andb_prop in H. destruct H as [H H2]. apply andb_prop in H. destruct H as [Hp H1].
+    destruct (IHe1 H1) as [W1 C1]. destruct (IHe2 H2) as [W2 C2]. split; [|reflexivity].
+    cbn [wf lsp_gt]. rewrite W1, W2, Hp, (closed_opn T _ _ C1), (closed_lsp T _ _ C2), (closed_lsp T _ _ C1). reflexivity.
+  - destruct (IHe H) as [W C]. split; [|reflexivity]. cbn [wf lsp_gt]. rewrite W, (closed_lsp T _ _ C). reflexivity.
+  - destruct (IHe H) as [W C]. split; [|reflexivity]. cbn [wf lsp_gt]. rewrite W, (closed_lsp T _ _ C). reflexivity.
+  - apply andb_prop in H. destruct H as [Hp H]. destruct (IHe H) as [W C]. split; [|reflexivity].
+    cbn [wf lsp_gt]. rewrite W, Hp, (closed_opn T _ _ C), (closed_lsp T _ _ C). reflexivity.
+  - apply andb_prop in H. destruct H as [Hp H]. destruct (IHe H) as [W C]. split; [|reflexivity].
+    cbn [wf lsp_gt]. rewrite W, Hp, (closed_opn T _ _ C), (closed_lsp T _ _ C). reflexivity.
+Qed.
+
+Lemma strip_paren : forall e, strip (to_ast_paren e) = e.
+Proof.
+  induction e; cbn [to_ast_paren]; try (cbn [strip]; congruence).
+  change (strip (ANested (AInfix (iop_of o) (to_ast_paren e1) (to_ast_paren e2)))) with (strip (AInfix (iop_of o) (to_ast_paren e1) (to_ast_paren e2))).
+  rewrite strip_iop_of. congruence.
+Qed.
+
+Lemma closed_no_minus : forall a, closed a = true -> starts_with_minus (show a) = false.
+Proof. destruct a; intro H; try discriminate; reflexivity. Qed.
+
+Lemma paren_closed : forall e, closed (to_ast_paren e) = true.
+Proof. destruct e; reflexivity. Qed.
+
+Lemma paren_no_hazard : forall e, hazard (to_ast_paren e) = false.
+Proof.
+  induction e; cbn [to_ast_paren hazard]; rewrite ?IHe, ?IHe1, ?IHe2; try reflexivity.
+  rewrite (closed_no_minus _ (paren_closed e)). reflexivity.
+Qed.
+
+Theorem paren_roundtrip : forall T e, ops_pos T e = true ->
+  option_map strip (parse T (show (to_ast_paren e))) = Some e /\ hazard (to_ast_paren e) = false.
+Proof.
+  intros T e H. destruct (paren_wf T e H) as [W C]. split; [|apply paren_no_hazard].
+  rewrite (parse_show_wf T (to_ast_paren e)).
+  - cbn [option_map]. rewrite strip_paren. reflexivity.
+  - unfold wf_top. rewrite W, (closed_lsp T _ 0 C). reflexivity.
+Qed.
